@@ -204,6 +204,10 @@ def fileText (f : SlurmFile) : Bytes := render f.toJson
 
 /-! ### typed leaves -/
 
+/-- `base64::Slurm.decode`: the URL-safe alphabet only (`+` and `/` are refused), padding may be left out -/
+def slurmB64 (v : Bytes) : Option Bytes :=
+  if v.any (fun c => c = 43 || c = 47) then none else ProvMsg.unB64Url v
+
 mutual
 /-- what the field deserialisers do with a string: under `prefix` it goes through `Prefix::from_str`,
 under `SKI` and `routerPublicKey` through the Base64 reader; `k` is the member the value sits under -/
@@ -211,8 +215,9 @@ def retype (k : Option Key) : Json → Json
   | .str s =>
     (match k with
      | some .prefixK => (match PfxText.parsePfx false s with | .ok p => .pfx p | .error _ => .str s)
-     | some .ski => (match ProvMsg.unB64Url s with | some b => .bytes b | none => .str s)
-     | some .routerPublicKey => (match ProvMsg.unB64Url s with | some b => .bytes b | none => .str s)
+     -- `serde_key_identifier`: the text of a key identifier must be exactly 27 characters (20 octets, no padding)
+     | some .ski => if s.length ≠ 27 then .str s else (match slurmB64 s with | some b => .bytes b | none => .str s)
+     | some .routerPublicKey => (match slurmB64 s with | some b => .bytes b | none => .str s)
      | _ => .str s)
   | .arr l => .arr (retypeArr k l)
   | .obj l => .obj (retypeObj l)
